@@ -107,12 +107,18 @@ fn victims() -> Vec<(&'static str, Op, bool)> {
 
 fn scenario(op: &Op, fl: Fl, blob_len: usize) -> (Program, usize) {
     // key 0: multi-byte characters on every even byte offset (nothing may slice it blindly)
-    let keys = vec![format!("a{}", "é".repeat(200)), "présent".to_string(), "bystander".to_string()];
+    let keys = vec![format!("a{}", "é".repeat(200)), "présent".to_string(), "bystander".to_string(), "afterwards".to_string()];
     let blobs = vec![Blob::new(blob_len, 41), Blob::new(300, 42), Blob::new(17, 43)];
     let steps = vec![
         Step { op: Op::Write(WriteSpec::simple(Some(1), 1)), fl: Fl::Sync },
         Step { op: Op::Write(WriteSpec::simple(Some(2), 2)), fl: Fl::Async },
         Step { op: op.clone(), fl },
+        // the SAME process carries on after the faulty call (faults are over by then): whatever
+        // the failed call left behind in the process must not leak into later calls
+        Step { op: Op::Write(WriteSpec::simple(Some(3), 2)), fl },
+        Step { op: Op::Remove { key: 3 }, fl: Fl::Sync },
+        Step { op: Op::Write(WriteSpec::simple(Some(3), 1)), fl: if fl == Fl::Sync { Fl::Async } else { Fl::Sync } },
+        Step { op: Op::Meta { key: 1 }, fl },
     ];
     (Program { keys, blobs, steps }, 2)
 }
@@ -456,7 +462,12 @@ impl Engine for C13 {
         let paths = Paths::new(&env.scratch.root, &env.scratch.cache, &env.scratch.scratch, prog);
         let mut delivered: Vec<String> = Vec::new();
         let mut fail_next_write_on: Option<String> = None;
-        let run = run_supervised(&paths, c.victim, c.victim + 1, true, None, |g, idx| {
+        // the traced process runs the victim and whatever the program holds after it; faults
+        // are delivered inside the victim's window only (gates counted there)
+        let run = run_supervised(&paths, c.victim, prog.steps.len(), true, None, |g, idx| {
+            if crate::ptrun::current_step() != c.victim {
+                return Decision::Continue;
+            }
             if let Some(p) = &fail_next_write_on {
                 if g.is_write_class() && g.get("fdpath") == Some(p.as_str()) {
                     delivered.push(format!("#{idx} {} -> ENOSPC (after the short write)", g.short()));
@@ -496,6 +507,14 @@ impl Engine for C13 {
         let (_, out, t0, t1) = run.outs.first().cloned().ok_or_else(|| format!("{what}: the call produced no result"))?;
         st.eval(1);
         self.judge(&ctx, &mut model, vstep, &out, t0, t1, &what, st)?;
+        // the calls the same process made after the faulty one
+        for (k, (i, o, a, b)) in run.outs.iter().enumerate().skip(1) {
+            let _ = k;
+            if let Some(s) = prog.steps.get(*i) {
+                st.eval(1);
+                model.step(&ctx, s, o, *a, *b).map_err(|e| format!("{what}; later in the same process, {}: {e}", basic::describe_step(prog, *i)))?;
+            }
+        }
         // (3) everything else is as the model says; files in the content / index areas are complete and valid
         let addrs = basic::addr_universe(prog);
         basic::sweep_keys(&ctx, &mut model, st, true, 0).map_err(|e| format!("{what}; afterwards: {e}"))?;
